@@ -322,6 +322,25 @@ def run_with_predicates(pid, impl, ops, per_case_timeout=10):
             if pid == 'C14' and k == 'copy':
                 pre = (w.graph, w.graph._to_dict(), w.graph.next_node_id, w.graph.next_attacker_id,
                        sorted(w.graph._id_to_node), sorted(w.graph._full_name_to_node), sorted(w.graph._id_to_attacker))
+                # side experiment (not part of the history): an asset of the shared model is renamed after the nodes were
+                # added; a copy taken now must still answer the lookups as the original does
+                named = [a for a in w.assets.values() if any(n.asset is a for n in w.graph.nodes)]
+                if named:
+                    import copy as _copy
+                    a0 = named[0]
+                    old_name = a0.name
+                    a0.name = old_name + '~renamed'
+                    try:
+                        extra = _copy.deepcopy(w.graph)
+                        for key in sorted(set(w.graph._full_name_to_node) | set(extra._full_name_to_node)):
+                            o, c = w.graph.get_node_by_full_name(key), extra.get_node_by_full_name(key)
+                            if (o is None) != (c is None) or (o is not None and o.id != c.id):
+                                viol.append((i, 'after an asset was renamed, a deep copy answers a lookup by full name differently from the original'))
+                                break
+                    except Exception as e:
+                        viol.append((i, f'deep copy raised {type(e).__name__} after an asset was renamed'))
+                    finally:
+                        a0.name = old_name
             oc, ret = w.apply(op)
             outs.append([oc, ret])
             if pid == 'C08' and k == 'calc' and oc == 0:
